@@ -67,10 +67,15 @@ def determinism(args):
         diff = [s for s in seeds if a.get(s) != b.get(s)]
         # (b) fork epochs vs genuinely fresh interpreters, (c) schedules independent of the worker's hash seed
         sub = seeds[: max(4, n // 6)]
+        half = seeds[: max(4, n // 2)]
         pool = O.Pool(args.repo, 16)
         try:
-            first = O.batch(pool, prof.name, sub, "quick", 3600, stop_on_violation=False)
+            first = O.batch(pool, prof.name, half, "quick", 3600, stop_on_violation=False)
             by = {r["seed"]: r for r in first}
+            # (d) the replay of a run's recorded steps is the run (same digest): what a replay file relies on
+            again = O.batch(pool, prof.name, half, "quick", 3600, stop_on_violation=False,
+                            replays={s: {"params": by[s]["params"], "steps": by[s]["steps"]} for s in half})
+            rdiff = [r["seed"] for r in again if r.get("harness_error") or r["digest"] != by[r["seed"]]["digest"]]
             rep_fresh = {s: {"params": dict(by[s]["params"], fresh_epochs=True), "steps": by[s]["steps"]} for s in sub}
             fresh = O.batch(pool, prof.name, sub, "quick", 3600, stop_on_violation=False, replays=rep_fresh)
             rep_hash = {s: {"params": by[s]["params"], "steps": None, "force_hash": (int(by[s]["hash_seed"]) + 3) % 8} for s in sub}
@@ -82,7 +87,11 @@ def determinism(args):
         hdiff = [r["seed"] for r in other if r.get("harness_error") or
                  json.dumps(r["steps"], sort_keys=True) != json.dumps(by[r["seed"]]["steps"], sort_keys=True)]
         report[prop] = {"seeds": n, "mismatch": len(diff), "fresh_interpreter_seeds": len(sub), "fresh_interpreter_mismatch": len(fdiff),
-                        "other_hash_seed_schedule_mismatch": len(hdiff), "wall_s": round(time.time() - t0, 1)}
+                        "other_hash_seed_schedule_mismatch": len(hdiff),
+                        "replay_seeds": len(half), "replay_of_recorded_steps_mismatch": len(rdiff), "wall_s": round(time.time() - t0, 1)}
+        if rdiff:
+            rc = 2
+            print("DETERMINISM-FAILURE %s replay of recorded steps differs from the generated run: %s" % (prop, rdiff[:3]))
         if fdiff or hdiff:
             rc = 2
             print("DETERMINISM-FAILURE %s fresh-interpreter mismatch %s / schedule depends on hash seed %s" % (prop, fdiff[:3], hdiff[:3]))
